@@ -15,7 +15,7 @@ PRIM, SUBS = 'rsa1024a', ['rsa1024b', 'rsa2048b', 'rsa2048a']
 PW = 'usage passphrase'
 
 
-def build_key(pflags, subflags, secret=True, newer=None, second_uid=None):
+def build_key(pflags, subflags, secret=True, newer=None, second_uid=None, uid_names=None):
     """Reference-written key. subflags: list of flag values (None = no key-flags subpacket).
     newer: optional (index, flags): a second, more recent binding (index >= 0) or self-certification (index -1) with other flags.
     second_uid: flags of a second identity."""
@@ -33,12 +33,12 @@ def build_key(pflags, subflags, secret=True, newer=None, second_uid=None):
             hashed += wire.subpacket(11, b'\x09\x07') + wire.subpacket(21, b'\x08\x0a') + wire.subpacket(22, b'\x02\x00')
         return wire.packet(2, rsig.make(key, typ, 8, hashed, rsig.sp_issuer(rkeys.keyid(key)) + unhashed, subj))
     out = bytearray(rkeys.secret_packet(prim) if secret else rkeys.public_packet(prim))
-    uid1 = b'First Identity <first@example.org>'
+    uid1 = uid_names[0] if uid_names else b'First Identity <first@example.org>'
     out += wire.packet(13, uid1) + sig(prim, 0x13, {'key': pbody, 'uid': uid1}, pflags)
     if newer and newer[0] == -1:
         out += sig(prim, 0x13, {'key': pbody, 'uid': uid1}, newer[1], at=K.T0 + 5000)
     if second_uid is not None:
-        uid2 = b'Second Identity <second@example.org>'
+        uid2 = uid_names[1] if uid_names else b'Second Identity <second@example.org>'
         out += wire.packet(13, uid2) + sig(prim, 0x13, {'key': pbody, 'uid': uid2}, second_uid[0])
     for i, (s, fl) in enumerate(zip(subs, subflags)):
         sbody = rkeys.public_body(s)
@@ -388,7 +388,21 @@ class Prop(object):
             for user, eff in (('First Identity', a), ('Second Identity', b)):
                 label = 'identities with flags %s / %s, user=%r' % (an, bn, user)
                 self._ops(r, blob, prim, subs, [eff, 0x20], label, {'part': 'users'}, dict(case, only=[an, bn], user=user), user=user, forms=('public', 'private'), enforce_opts=(True,))
-        r.samples.append({'users': ['First Identity', 'Second Identity']})
+        # identities one of whose name / e-mail is contained in the other's: user= names exactly one of them
+        sup, sub_ = b'Robert Tables <jimbob@example.org>', b'Rob <bob@example.org>'
+        for (an, a), (bn, b) in itertools.permutations(FLAGSETS, 2):
+            if a is None or b is None or (a == b):
+                continue
+            if case.get('only') and case['only'] != [an, bn, 'overlap']:
+                continue
+            for names in ((sup, sub_), (sub_, sup)):
+                blob, prim, subs = build_key(a, [0x20], second_uid=(b,), uid_names=names)
+                flags_of = {names[0]: a, names[1]: b}
+                for user, which in (('Rob', sub_), ('bob@example.org', sub_), ('Robert Tables', sup), ('jimbob@example.org', sup)):
+                    label = 'identities %r (flags %s) and %r (flags %s), user=%r' % (names[0].decode(), an, names[1].decode(), bn, user)
+                    self._ops(r, blob, prim, subs, [flags_of[which], 0x20], label, {'part': 'users-overlap'}, dict(case, only=[an, bn, 'overlap'], user=user), user=user,
+                              forms=('public', 'private'), enforce_opts=(True,))
+        r.samples.append({'users': ['First Identity', 'Second Identity', 'Rob / Robert Tables']})
         return r
 
     def c_preconditions(self, case):
